@@ -451,7 +451,8 @@ impl MixedColBuffer {
                 RawVal::Str(s) => string_col.push(&s),
                 RawVal::Int(i) => string_col.push(&i.to_string()),
                 RawVal::Float(f) => string_col.push(&f.to_string()),
-                RawVal::Null => {}
+                // keeps its row slot; the null map marks it as absent
+                RawVal::Null => string_col.push(""),
             }
         }
         string_col.finalize(name, present)
